@@ -31,6 +31,7 @@ func init() {
 			{Name: "retry-count-not-incremented", File: "bfe_server/reverseproxy.go", Old: "		if err == bfe_basic.ErrBkCrossRetryBalance {\n			request.RetryTime += 1\n			continue", New: "		if err == bfe_basic.ErrBkCrossRetryBalance {\n			continue", Expect: "retry-increment"},
 			{Name: "bound-check-dropped", File: "bfe_balance/bal_gslb/bal_gslb.go", Old: "	if req.RetryTime > (bal.retryMax + bal.crossRetry) {", New: "	if req.RetryTime > (bal.retryMax+bal.crossRetry) && bal.crossRetry < 0 {", Expect: "retry-bound"},
 			{Name: "cross-exclude-wrong-target", File: "bfe_balance/bal_gslb/bal_gslb.go", Old: "	current, err = bal.randomSelectExclude(current)", New: "	current, err = bal.randomSelectExclude(nil)", Expect: "cross-exclude"},
+			{Name: "stale-conn-as-connect-error", File: "bfe_http/transport.go", Old: "	resp, err = pconn.roundTrip(treq)\n	if err == nil {\n		state.HttpBackendReqSucc.Inc(1)\n	}", New: "	resp, err = pconn.roundTrip(treq)\n	if err == nil {\n		state.HttpBackendReqSucc.Inc(1)\n	} else if _, ok := err.(ReadRespHeaderError); ok {\n		err = ConnectError{Err: err, Addr: cm.addr()}\n	}", Expect: "connect-error-origin"},
 			{Name: "retrytime-reset", File: "bfe_balance/bal_gslb/bal_gslb.go", Old: "			req.RetryTime = bal.retryMax\n", New: "			req.RetryTime = 0\n", Expect: "retrytime-writers"},
 		},
 	})
@@ -278,6 +279,45 @@ func runC08(c *core.Ctx) {
 				"checkRequestWithoutBody reports `no body` as "+v+" under {"+strings.Join(gs, " && ")+"}; accepted: true under Body == nil / Body == EofReader, or RequestBody.Eof()")
 		}
 		c.Min("no-body-guard", 2)
+	}
+	// (d') the cross-retry selector itself never hands back the excluded sub-cluster
+	checkExcludePredicate(c, "cross-exclude-predicate")
+	// (a') who may classify a failure as a connect error: ConnectError is constructed only on the
+	// error branch of the call that acquires the backend connection, before any request byte is
+	// written; everything clusterInvoke treats as "always safe to retry" rests on that.
+	nCE := 0
+	for _, fn := range c.P.SrcFuncs("bfe_http", "bfe_fcgi") {
+		core.Instrs(fn, func(in ssa.Instruction) {
+			mi, ok := in.(*ssa.MakeInterface)
+			if !ok {
+				return
+			}
+			ts := core.TypeStr(mi.X.Type())
+			if ts != "bfe_http.ConnectError" && ts != "bfe_fcgi.ConnectError" {
+				return
+			}
+			nCE++
+			ok2 := core.HasGuard(in.Block(), func(g core.Guard) bool {
+				v, nonNil, isNil := nilTestOf(g)
+				if !isNil || !nonNil {
+					return false
+				}
+				ex, isEx := v.(*ssa.Extract)
+				if !isEx {
+					return false
+				}
+				call, isCall := ex.Tuple.(*ssa.Call)
+				if !isCall {
+					return false
+				}
+				k := core.CalleeKey(&call.Call)
+				return k == "bfe_http.Transport.getConn" || k == "bfe_fcgi.Dial" || k == "bfe_fcgi.DialTimeout"
+			})
+			c.Check("connect-error-origin", core.FuncKey(fn)+":"+ts, in.Pos(), ok2, "a "+ts+" (which clusterInvoke always retries) is produced outside the error branch of the connection-acquiring call: a failure after request bytes were written could be replayed")
+		})
+	}
+	if nCE < 2 {
+		c.Check("connect-error-origin", "sites", token.NoPos, false, fmt.Sprintf("expected the two ConnectError construction sites (http, fcgi transports), found %d", nCE))
 	}
 	// (c,d) BalanceGslb.Balance gates
 	if fn := c.P.Func(gslb, "BalanceGslb.Balance"); fn == nil {
